@@ -145,6 +145,10 @@ class SchemaCheck:
 		self.check.disagree('Layout-vs-generated-module', case, impl, model)
 
 	def fail(self, signature, what, replay):
+		if 'crash:Timeout' in what:
+			# resource rule (DESIGN C01): a mutated count that makes the codec iterate for seconds is the exhausted class, not a byte string that decodes
+			self.check.extra['exhausted_cases'] = self.check.extra.get('exhausted_cases', 0) + 1
+			return
 		self.failed += 1
 		kind = signature.split(':')[0]
 		replay = dict(replay)
